@@ -16,7 +16,7 @@ Idioms accepted for each test are listed in the tables / functions below, one co
 """
 import re
 from .common import *
-from .C09 import root_of, agg_def, construction_of, construction_carry, seq_sources, pushes_into, created_empty, fresh_id, eagerise, _whole_defs, _callmap, REF_TRANSPARENT
+from .C09 import root_of, agg_def, construction_of, construction_carry, seq_sources, pushes_into, created_empty, fresh_id, open_up, _whole_defs, _callmap, REF_TRANSPARENT
 
 VIEW = 'norm'
 
@@ -68,12 +68,12 @@ def _tracked(body):
     return base
 
 
-def feasible_reach(body, starts, stop=(), via=None):
+def feasible_reach(body, starts, stop=(), via=None, cut=None):
     """forward reachability that follows only the matching arm of a switch whose operand is known on the path:
     short-circuit bools (as templates.reach_cp) and the variant / discriminant of Option / Result / ControlFlow
     temporaries (`x = Err(..)`, `b = Try::branch(x)`, `d = discriminant(b)`, `switch d`).
     via = set of edges (a, b): return only the blocks reached *after* one of these edges was taken."""
-    key = (tuple(sorted(starts)), frozenset(stop), frozenset(via) if via else None)
+    key = (tuple(sorted(starts)), frozenset(stop), frozenset(via) if via else None, frozenset(cut) if cut else None)
     cache = body.__dict__.setdefault('_c12_reach', {})
     if key in cache: return cache[key]
     tracked = _tracked(body)
@@ -137,7 +137,7 @@ def feasible_reach(body, starts, stop=(), via=None):
                 succs = [m.get(v, t['else'])]
         fe = frozenset(e.items())
         for s in succs:
-            if s in stop or body.blocks[s]['cleanup']: continue
+            if s in stop or body.blocks[s]['cleanup'] or (cut and (bi, s) in cut): continue
             work.append((s, fe, flag or (bi, s) in via if via else flag))
     if res is None: res = out
     cache[key] = res
@@ -147,22 +147,25 @@ def feasible_reach(body, starts, stop=(), via=None):
 # ---------------------------------------------------------------------------------------------------
 # tests
 class Test:
-    def __init__(self, sb, passes, fails, what, fail_edges=None):
+    def __init__(self, sb, passes, fails, what, fail_edges=None, pass_edges=None):
         self.sb = sb; self.passes = [x for x in passes if x is not None]; self.fails = fails; self.what = what
         self.fail_edges = set(fail_edges) if fail_edges else {(sb, f) for f in fails}     # CFG edges taken when the test fails
+        self.pass_edges = set(pass_edges) if pass_edges else {(sb, p_) for p_ in self.passes}   # .. when it holds
 
     def describe(self):
         return '%s: switch bb%d pass->%s fail->%s' % (self.what, self.sb, self.passes, self.fails)
 
 
-def protects(body, test, targets, need_err=True):
+def protects(body, test, targets, need_err=True, implied_by=()):
     """(i) on no feasible path from the entry that leaves the test through a fail edge is a target reached
-    (but an Err-exit is), (ii) no target is reached from the entry without passing the test's block"""
+    (but an Err-exit is), (ii) no target is reached from the entry without taking one of the test's pass edges — or
+    one of the edges `implied_by`, on which the tested condition is known to hold for another reason (a stronger
+    test taken earlier, e.g. `w == 0` for `w >= 0`): independent guards may come in any order"""
     if any(f is None for f in test.fails): return False
     r = feasible_reach(body, [0], via=test.fail_edges)
     if r & targets: return False
     if need_err and not (r & body.err_exits()): return False
-    if feasible_reach(body, [0], stop={test.sb}) & targets: return False
+    if feasible_reach(body, [0], cut=set(test.pass_edges) | set(implied_by)) & targets: return False
     return True
 
 
@@ -325,7 +328,7 @@ def range_sig(body, lo):
     return '%s..%s' % (lo_, hi)
 
 
-def canon(body, e, floops, depth=10):
+def canon(body, e, floops, depth=60):
     """an expression as a string in which the item of a loop is named after the sequence the loop runs over
          ITEM<0..n>          item of any `for i in 0..n` (two loops over the same range name the same values: loop fission)
          E[ITEM<0..n>]       item of a loop over a vector that was filled, one push per iteration of a loop over 0..n,
@@ -367,6 +370,12 @@ def canon(body, e, floops, depth=10):
     return str(e)[:40]
 
 
+def is_conversion(c, src, dst):
+    """`Dst::from(x)` | `x.into()` | `From::from(x)` | `Into::<Dst>::into(x)`: the blanket `Into` is `From`"""
+    return re.search(r'From<%s> for %s>::from$' % (re.escape(src), re.escape(dst)), c.name) is not None or \
+        re.search(r'^<%s as std::convert::Into<%s>>::into$' % (re.escape(src), re.escape(dst)), c.name) is not None
+
+
 def is_zero(body, o):
     if o['k'] == 'const': return T.f64_const(o['v']) == 0.0
     e = T.strip_wrappers(T.expr(body, o, depth=6))
@@ -376,7 +385,9 @@ def is_zero(body, o):
 def is_rounded(e, fn, side):
     """floor(bound.upper) / ceil(bound.lower)"""
     e = T.strip_wrappers(e)
-    return e[0] == 'call' and e[1] == fn and 'f64' in e[2] and (BOUND, side) in T.expr_fields(e)
+    if not (e[0] == 'call' and e[1] == fn and 'f64' in e[2] and e[3]): return False
+    a = T.strip_wrappers(e[3][0])                  # the bound's end itself, nothing added / scaled before rounding
+    return a[0] in ('place', 'proj') and list(a[2])[-1:] == [(BOUND, side)]
 
 
 def is_width(body, o):
@@ -405,7 +416,9 @@ def width_tests(ctx, body):
                     zero_arms.append((sb, T.switch_sides(body, sb, neg)[0]))
                 continue
             # `w >= 0` true | `0 <= w` true | `w < 0` false | `0 > w` false
-            want = {('Ge', False): True, ('Le', True): True, ('Lt', False): False, ('Gt', True): False}.get((op, za))
+            #  `w > 0` true | `0 < w` true | `w <= 0` false | `0 >= w` false  (w == 0 must then have been dealt with before: C12.single)
+            want = {('Ge', False): True, ('Le', True): True, ('Lt', False): False, ('Gt', True): False,
+                    ('Gt', False): True, ('Lt', True): True, ('Le', False): False, ('Ge', True): False}.get((op, za))
         elif not za and a['k'] != 'const' and b['k'] != 'const' and op != 'Eq':
             # `floor(upper) >= ceil(lower)` and its mirror images
             ea, eb = xexpr(body, a), xexpr(body, b)
@@ -440,7 +453,8 @@ def width_tests(ctx, body):
                         if neg_discr not in arms or 0 not in arms: continue
                         other = [tg for v, tg in arms.items() if v not in (neg_discr, 0)] or [sw5['else']]
                         # two switches decide: none_t leaves the outer one, arms[neg] the inner one
-                        nonneg.append(Test(b3, [arms[0]] + other, [none_t, arms[neg_discr]], 'partial_cmp(w, 0) is Equal or Greater', fail_edges=[(b3, none_t), (b5, arms[neg_discr])]))
+                        nonneg.append(Test(b3, [arms[0]] + other, [none_t, arms[neg_discr]], 'partial_cmp(w, 0) is Equal or Greater', fail_edges=[(b3, none_t), (b5, arms[neg_discr])],
+                                           pass_edges=[(b5, x) for x in [arms[0]] + other]))
                         zero_arms.append((b5, arms[0]))
     return nonneg, zero_arms
 
@@ -535,14 +549,13 @@ def linear_terms(e, sign=1, atom=lambda x: False):
     return [(sign, e)]
 
 
-def is_power_of_two(body, e, item_bb):
-    """2^i with i the loop item.  Idioms: 2f64.powi(i as i32) | 2f64.powf(i as f64) | (i as f64).exp2() | (1 << i) as f64"""
+def is_power_of_two(body, e, is_index):
+    """2^i with is_index(i).  Idioms: 2f64.powi(i as i32) | 2f64.powf(i as f64) | (i as f64).exp2() | (1 << i) as f64"""
     e = strip_casts(e)
-    has_item = lambda x: any(n[0] == 'call' and len(n) > 4 and n[4] == item_bb for n in T.expr_walk(x))
-    if e[0] == 'call' and e[1] in ('powi', 'powf') and 'f64' in e[2] and len(e[3]) == 2: return const_is(e[3][0], 2.0) and has_item(e[3][1])
-    if e[0] == 'call' and e[1] == 'exp2' and e[3]: return has_item(e[3][0])
+    if e[0] == 'call' and e[1] in ('powi', 'powf') and 'f64' in e[2] and len(e[3]) == 2: return const_is(e[3][0], 2.0) and is_index(e[3][1])
+    if e[0] == 'call' and e[1] == 'exp2' and e[3]: return is_index(e[3][0])
     a = T.arith(e)
-    if a[0] == 'bin' and a[1] == 'Shl': return const_is(a[2], 1.0) and has_item(a[3])
+    if a[0] == 'bin' and a[1] == 'Shl': return const_is(a[2], 1.0) and is_index(a[3])
     return False
 
 
@@ -568,50 +581,91 @@ def eval_index_expr(e, item_bb, hi_root, body, i, n, depth=8):
     return None
 
 
+def match_index(a, b, item_bb):
+    """tree b = tree a with the loop item replaced by one expression X (the bit position of a peeled copy): X, else None"""
+    def is_item(x): return (x[0] == 'proj' and x[1][0] == 'call' and len(x[1]) > 4 and x[1][4] == item_bb) or (x[0] == 'call' and len(x) > 4 and x[4] == item_bb)
+    found = []
+    def go(x, y):
+        if is_item(x): found.append(y); return True
+        if x[0] != y[0]: return False
+        k = x[0]
+        if k == 'bin': return x[1] == y[1] and go(x[2], y[2]) and go(x[3], y[3])
+        if k in ('un', 'cast'): return x[1] == y[1] and go(x[2], y[2])
+        if k == 'call': return x[1] == y[1] and len(x[3]) == len(y[3]) and all(go(p, q) for p, q in zip(x[3], y[3]))
+        if k == 'proj': return [f for a_, f in x[2]] == [f for a_, f in y[2]] and go(x[1], y[1])
+        if k == 'agg': return x[1] == y[1] and len(x[2]) == len(y[2]) and all(go(p, q) for p, q in zip(x[2], y[2]))
+        return T.expr_str(x) == T.expr_str(y)
+    if not go(a, b) or not found: return None
+    return found[0] if len({T.expr_str(f, 10) for f in found}) == 1 else None
+
+
 def check_coefficients(ctx, R, body, fn, floops, new_call):
-    """every element pushed onto the vector handed to Linear::new is (_, c) with c = 2^i, except in the last iteration
-    (i == n - 1, in any spelling) where it is w - 2^i + 1"""
+    """every element pushed onto the vector handed to Linear::new is (_, c) with c = 2^i, except for the last bit
+    (i == n - 1, in any spelling) where it is w - 2^i + 1.  The last bit may be a branch inside the loop over 0..n, or a
+    peeled copy after a loop over 0..n-1."""
     tv = root_of(body, new_call.args[0], SEQ_TRANSPARENT, cross_proj=False)[0]
+    sites = []
     for c in (pushes_into(body, tv) if tv is not None else []):
         lo = next((l for l in sorted(floops, key=lambda l: len(l[4])) if c.bb in l[4]), None)
         ta = agg_def(body, root_of(body, c.args[1])[0], 'tuple')
-        rng = bit_range(body, lo, floops) if lo is not None else None
-        if lo is None or ta is None or len(ta[1]['rv']['ops']) != 2 or rng is None:
-            ctx.bad(R + '.coef/values', 'T-BRANCHFX', fn, 'term is not pushed as (id, coefficient) inside a loop over 0..n', body.site(c.bb)); continue
-        item_bb = lo[0].bb; hi_op = rng[1]['rv']['ops'][1]; hi_root = (root_of(body, hi_op)[0], canon(body, xexpr(body, hi_op), ()))
-        cr = root_of(body, ta[1]['rv']['ops'][1])[0]
-        defs = [d for d in _whole_defs(body, cr)] if cr is not None else []
+        if ta is None or len(ta[1]['rv']['ops']) != 2:
+            ctx.bad(R + '.coef/values', 'T-BRANCHFX', fn, 'term is not pushed as (id, coefficient)', body.site(c.bb)); return
+        sites.append((c, lo, ta))
+    lsites = [x for x in sites if x[1] is not None]; psites = [x for x in sites if x[1] is None]
+    if len(lsites) != 1 or len(psites) > 1:
+        ctx.bad(R + '.coef/values', 'T-BRANCHFX', fn, 'terms are pushed at %d places inside loops and %d outside (expected one loop, at most one peeled bit)' % (len(lsites), len(psites)), body.site()); return
+    c, lo, ta = lsites[0]
+    rng = bit_range(body, lo, floops)
+    if rng is None:
+        ctx.bad(R + '.coef/values', 'T-BRANCHFX', fn, 'terms are not pushed inside a loop over 0..n', body.site(c.bb)); return
+    item_bb = lo[0].bb; hi_op = rng[1]['rv']['ops'][1]; hi_c = canon(body, xexpr(body, hi_op), ())
+    hi_root = (root_of(body, hi_op)[0], hi_c)
+    in_loop = lambda x: any(n_[0] == 'call' and len(n_) > 4 and n_[4] == item_bb for n_ in T.expr_walk(x))
+    at_hi = lambda x: canon(body, strip_casts(x), ()) == hi_c
+
+    def classify(ta_, is_index):
+        cr = root_of(body, ta_[1]['rv']['ops'][1])[0]
         kinds = {}
-        for d in defs:
+        for d in (_whole_defs(body, cr) if cr is not None else []):
             terms = linear_terms(def_expr(body, d), 1, lambda x: tree_is_width(body, x, 0))
             pos = [t for sg, t in terms if sg > 0]; neg = [t for sg, t in terms if sg < 0]
-            if len(terms) == 1 and pos and is_power_of_two(body, pos[0], item_bb): kinds.setdefault('power', []).append(d[1])
-            elif len(pos) == 2 and len(neg) == 1 and is_power_of_two(body, neg[0], item_bb) and \
+            if len(terms) == 1 and pos and is_power_of_two(body, pos[0], is_index): kinds.setdefault('power', []).append(d[1])
+            elif len(pos) == 2 and len(neg) == 1 and is_power_of_two(body, neg[0], is_index) and \
                     sorted((tree_is_width(body, t), const_is(t, 1.0)) for t in pos) == [(False, True), (True, False)]: kinds.setdefault('capped', []).append(d[1])
             else: kinds.setdefault('other', []).append(d[1])
-        okv = set(kinds) == {'power', 'capped'}
-        ctx.check(okv, R + '.coef/values', 'T-BRANCHFX', fn, 'coefficient is not 2^i / w - 2^i + 1 (found %s)' % sorted(kinds), body.site(c.bb))
-        if not okv: continue
-        # which iteration gets the capped one: the decision that separates the two definitions must single out i == n - 1
-        good = False; seen = []
-        for bi, st in body.stmts():
-            rv = st['rv']
-            if bi not in lo[4] or rv['k'] != 'bin' or rv['op'] not in ('Eq', 'Ne', 'Lt', 'Le', 'Gt', 'Ge') or rv.get('ty') == 'f64': continue
-            ea, eb = xexpr(body, rv['ops'][0]), xexpr(body, rv['ops'][1])
-            N_ = 6
-            vals = []
-            for i_ in range(N_):
-                x = eval_index_expr(ea, item_bb, hi_root, body, i_, N_); y = eval_index_expr(eb, item_bb, hi_root, body, i_, N_)
-                if x is None or y is None: vals = None; break
-                vals.append({'Eq': x == y, 'Ne': x != y, 'Lt': x < y, 'Le': x <= y, 'Gt': x > y, 'Ge': x >= y}[rv['op']])
-            if not vals or len(set(vals[:-1])) != 1 or vals[-1] == vals[0]: continue
-            for sb, neg in T.bool_flow(body, st['dst']['l']):
-                tt, ft = T.switch_sides(body, sb, neg)
-                last_t, other_t = (tt, ft) if vals[-1] else (ft, tt)
-                rl = body.reach([last_t], stop={lo[1]}); ro = body.reach([other_t], stop={lo[1]})
-                seen.append('bb%d' % sb)
-                if all(b in rl and b not in ro for b in kinds['capped']) and all(b in ro and b not in rl for b in kinds['power']): good = True
-        ctx.check(good, R + '.coef/last-is-capped', 'T-BRANCHFX', fn, 'the capped coefficient is not chosen exactly for the last bit (i == n - 1); candidate tests: %s' % seen, body.site(c.bb))
+        return kinds
+
+    kinds = classify(ta, in_loop)
+    if psites:
+        # loop over 0..n-1 pushes 2^i, the peeled copy pushes the capped coefficient for i = n - 1 (= the loop's upper end)
+        pk = classify(psites[0][2], at_hi)
+        okv = set(kinds) == {'power'} and set(pk) == {'capped'}
+        ctx.check(okv, R + '.coef/values', 'T-BRANCHFX', fn, 'coefficients are not 2^i in the loop (found %s) and w - 2^i + 1 in the peeled last bit (found %s)' % (sorted(kinds), sorted(pk)), body.site(c.bb))
+        ctx.check(okv, R + '.coef/last-is-capped', 'T-BRANCHFX', fn, 'the peeled bit is not position n - 1 with the capped coefficient', body.site(psites[0][0].bb))
+        return
+    okv = set(kinds) == {'power', 'capped'}
+    ctx.check(okv, R + '.coef/values', 'T-BRANCHFX', fn, 'coefficient is not 2^i / w - 2^i + 1 (found %s)' % sorted(kinds), body.site(c.bb))
+    if not okv: return
+    # which iteration gets the capped one: the decision that separates the two definitions must single out i == n - 1
+    good = False; seen = []
+    for bi, st in body.stmts():
+        rv = st['rv']
+        if bi not in lo[4] or rv['k'] != 'bin' or rv['op'] not in ('Eq', 'Ne', 'Lt', 'Le', 'Gt', 'Ge') or rv.get('ty') == 'f64': continue
+        ea, eb = xexpr(body, rv['ops'][0]), xexpr(body, rv['ops'][1])
+        N_ = 6
+        vals = []
+        for i_ in range(N_):
+            x = eval_index_expr(ea, item_bb, hi_root, body, i_, N_); y = eval_index_expr(eb, item_bb, hi_root, body, i_, N_)
+            if x is None or y is None: vals = None; break
+            vals.append({'Eq': x == y, 'Ne': x != y, 'Lt': x < y, 'Le': x <= y, 'Gt': x > y, 'Ge': x >= y}[rv['op']])
+        if not vals or len(set(vals[:-1])) != 1 or vals[-1] == vals[0]: continue
+        for sb, neg in T.bool_flow(body, st['dst']['l']):
+            tt, ft = T.switch_sides(body, sb, neg)
+            last_t, other_t = (tt, ft) if vals[-1] else (ft, tt)
+            rl = body.reach([last_t], stop={lo[1]}); ro = body.reach([other_t], stop={lo[1]})
+            seen.append('bb%d' % sb)
+            if all(b in rl and b not in ro for b in kinds['capped']) and all(b in ro and b not in rl for b in kinds['power']): good = True
+    ctx.check(good, R + '.coef/last-is-capped', 'T-BRANCHFX', fn, 'the capped coefficient is not chosen exactly for the last bit (i == n - 1); candidate tests: %s' % seen, body.site(c.bb))
 
 
 def is_dv_field_leaf(leaf):
@@ -623,7 +677,7 @@ def check(ctx):
     R = 'C12'
     body0 = ctx.method(R + '.anchor/log_encode', INST, 'log_encode')
     if body0 is None: return
-    body = eagerise(ctx, body0)
+    body = open_up(ctx, body0)
     fn = body0.name
     # ---- the encoding loop = the loop that pushes decision variables onto self.decision_variables
     pushes = []
@@ -639,15 +693,18 @@ def check(ctx):
         for lo in floops:
             if bb in lo[4] and (best is None or len(lo[4]) < len(best[4])): best = lo
         return best
-    loop = inner(pushes[0].bb)
-    ctx.check(loop is not None and all(inner(c.bb) is loop for c in pushes), R + '.loop/found', 'T-LOOPMUST', fn, 'the pushes are not inside one loop', body.site(pushes[0].bb))
+    # pushes inside the loop, and *peeled* ones: straight-line copies of the loop body for one more bit position (last
+    # iteration unrolled, body in a local closure called once more, ..); see the per-site rules below
+    looped = [c for c in pushes if inner(c.bb) is not None]; peeled = [c for c in pushes if inner(c.bb) is None]
+    loop = inner(looped[0].bb) if looped else None
+    ctx.check(loop is not None and all(inner(c.bb) is loop for c in looped), R + '.loop/found', 'T-LOOPMUST', fn, 'the pushes are not inside one loop', body.site(pushes[0].bb))
     if loop is None: return
     nextc, header, some_bb, none_bb, blocks = loop
     push_bbs = {c.bb for c in pushes}
     targets = set(body.strict_ok_exits()) | push_bbs | {header}
 
-    def decide(rule, tests, none_msg, weak_msg, template='T-GUARD'):
-        good = [t for t in tests if protects(body, t, targets)]
+    def decide(rule, tests, none_msg, weak_msg, template='T-GUARD', implied_by=()):
+        good = [t for t in tests if protects(body, t, targets, implied_by=implied_by)]
         ctx.counters['cfg_paths'] += len(tests)
         if good: ctx.ok(rule, template, body.site(good[0].sb), guard=good[0].what, shape=good[0].describe())
         elif not tests: ctx.bad(rule, template, fn, none_msg, body.site())
@@ -757,6 +814,10 @@ def check(ctx):
     # bound must never be defaulted
     dflt = [c for c in body.calls if 'v1::Bound' in c.name and c.item in ('unwrap_or_default', 'unwrap_or', 'unwrap_or_else')]
     ctx.check(not dflt, R + '.guards/no-bound/defaulted', 'T-ERRFLOW', fn, 'missing bound is defaulted by ' + ', '.join(c.item for c in dflt), body.site(dflt[0].bb) if dflt else body.site())
+    # `w == 0` (the single-integer shortcut) implies both ends finite and w >= 0: on its arm those guards need not have
+    # been passed, so the shortcut may stand before or after them
+    nonneg, zero_arms = width_tests(ctx, body)
+    zero_edges = set(zero_arms)
     # ---- guard 4: finiteness of both ends
     finite_tests = {}
     for side in ('lower', 'upper'):
@@ -779,11 +840,10 @@ def check(ctx):
                 ts += bool_tests(body, st_['dst']['l'], True, 'bound.%s.abs() < INFINITY' % side)
         finite_tests[side] = ts
         decide(R + '.guards/finite/' + side, ts, 'no `bound.%s.is_finite()` test guarding the encoding loop (an infinite bound makes the bit count unbounded)' % side,
-               '`bound.%s.is_finite()` does not keep a non-finite bound away from the encoding loop' % side)
+               '`bound.%s.is_finite()` does not keep a non-finite bound away from the encoding loop' % side, implied_by=zero_edges)
     # ---- guard 5: the range contains an integer
-    nonneg, zero_arms = width_tests(ctx, body)
     decide(R + '.guards/empty-range', nonneg, 'no `floor(upper) - ceil(lower) >= 0` test guarding the loop',
-           'the `floor(upper) - ceil(lower) >= 0` test does not keep an empty range away from the encoding')
+           'the `floor(upper) - ceil(lower) >= 0` test does not keep an empty range away from the encoding', implied_by=zero_edges)
     # floor on upper, ceil on lower (not swapped)
     for c in body.calls:
         if c.item in ('floor', 'ceil') and 'f64' in c.name and c.bb not in blocks:
@@ -799,7 +859,7 @@ def check(ctx):
     for bi, st in casts:
         s = ctx.S.slice_operand(body, st['rv']['ops'][0])
         srcs = sorted({f for a, f in s.fields if a.endswith(BOUND)})
-        guarded = [side for side in ('lower', 'upper') if any(protects(body, t, {bi}, need_err=False) for t in finite_tests[side])]
+        guarded = [side for side in ('lower', 'upper') if any(protects(body, t, {bi}, need_err=False, implied_by=zero_edges) for t in finite_tests[side])]
         ctx.check(set(srcs) <= set(guarded), R + '.cast/finite-before-usize', 'T-GUARD', fn,
                   'loop trip count is an f64→usize cast of a value depending on %s without a finiteness test in front of it' % sorted(set(srcs) - set(guarded)), body.site(bi))
     # ---- single-integer range: constant result, nothing pushed
@@ -815,7 +875,7 @@ def check(ctx):
             if e in single_region and k == 'ok':
                 d = _whole_defs(body, root_of(body, st['rv']['ops'][0])[0])
                 frm = _callmap(body).get(d[0][1]) if len(d) == 1 and d[0][0] == 'call' else None
-                ctx.check(frm is not None and re.search(r'From<f64> for v1::Linear>::from$', frm.name) is not None and is_rounded(xexpr(body, frm.args[0]), 'ceil', 'lower'),
+                ctx.check(frm is not None and is_conversion(frm, 'f64', 'v1::Linear') and is_rounded(xexpr(body, frm.args[0]), 'ceil', 'lower'),
                           R + '.single/constant-is-lower', 'T-CARRY', fn, 'the constant returned for a single-integer range is not ceil(lower)', body.site(e))
     # ---- atomic
     for what, bi, badexits in T.check_atomic(body, ctx.S, ctx.F):
@@ -824,10 +884,16 @@ def check(ctx):
     extra = sorted(x for x in w if x not in {'decision_variables'})
     ctx.check(not extra, R + '.only-decision-variables', 'T-ATOMIC', fn, 'writes to self outside decision_variables: %s' % extra, body.site(), writes=sorted(w))
     # ---- pushed variables
-    for pc in pushes:
+    br = bit_range(body, loop, floops)
+    hi_op = br[1]['rv']['ops'][1] if br is not None else None
+    hi_c = canon(body, xexpr(body, hi_op), ()) if hi_op is not None else None
+    site_ids = []; loop_ide = None
+    for pc in looped + peeled:
+        is_peeled = pc in peeled
         # the pushed value: a literal, or `DecisionVariable::default()` / a constructor completed by field assignments and setters
         a = construction_of(ctx, body, root_of(body, pc.args[1])[0], DV)
-        ctx.check(a is not None and a.bb in blocks, R + '.vars/literal', 'T-CARRY', fn, 'the value pushed is not a DecisionVariable built in the same iteration', body.site(pc.bb))
+        ctx.check(a is not None and inner(a.bb) is inner(pc.bb) and body.dominates(a.bb, pc.bb), R + '.vars/literal', 'T-CARRY', fn,
+                  'the value pushed is not a DecisionVariable built in the same iteration', body.site(pc.bb))
         if a is None: continue
         bi = a.bb
         # which Kind variants the field can come from: `Kind::Binary as i32` (a constant) or `set_kind(Kind::Binary)` (a value)
@@ -854,42 +920,58 @@ def check(ctx):
         # (expression tree, not the slice: id_base comes from `self`, which the loop itself mutates, so the slice of
         #  anything read from `self` contains the loop)
         ide = xexpr(body, idop)
-        ctx.check(any(x[0] == 'call' and len(x) > 4 and x[4] == nextc.bb for x in T.expr_walk(ide)), R + '.vars/id-per-bit', 'T-CARRY', fn,
-                  'id is not computed from the bit index', body.site(bi), id_expr=T.expr_str(ide))
         ss = construction_carry(ctx, R + '.vars/subscripts', a, 'subscripts', need_params=[2])
-        if ss is not None:
-            ctx.check(nextc in ss.call_objs, R + '.vars/subscripts-bit', 'T-CARRY', fn, 'subscripts do not contain the bit index', body.site(bi))
-        # the same id goes into the returned linear expression
-        idc = canon(body, xexpr(body, idop), floops)
-        for e, k, rst in body.ret_assignments():
-            if k == 'ok' and e not in single_region:
-                # Ok(Linear::new(terms, c)): c = ceil(lower), and every element of `terms` is pushed, once per iteration of a
-                # loop, as (the id given to the variable of the same bit, _).  "The same id" = the same canonical
-                # expression (see canon): the same local, or recomputed from the same inputs in a loop over the same range
-                d = _whole_defs(body, root_of(body, rst['rv']['ops'][0])[0])
-                new = _callmap(body).get(d[0][1]) if len(d) == 1 and d[0][0] == 'call' else None
-                precise = False; seen_ids = []
-                if new is not None and re.search(r'impl v1::Linear>::new(::<.*>)?$', new.name) and len(new.args) == 2:
-                    tv = root_of(body, new.args[0], SEQ_TRANSPARENT, cross_proj=False)[0]
-                    tp = pushes_into(body, tv) if tv is not None else []
-                    okp = bool(tp)
-                    for c in tp:
-                        ta = agg_def(body, root_of(body, c.args[1])[0], 'tuple')
-                        tid = canon(body, xexpr(body, ta[1]['rv']['ops'][0]), floops) if ta and ta[1]['rv']['ops'] else None
-                        seen_ids.append(tid)
-                        lt = inner(c.bb)
-                        if tid != idc or lt is None or not T.must_pass(body, lt[2], {lt[1]}, {x.bb for x in tp if x.bb in lt[4]}): okp = False
-                    precise = okp and 'ITEM<' in idc and is_rounded(xexpr(body, new.args[1]), 'ceil', 'lower')
-                if new is not None and re.search(r'impl v1::Linear>::new(::<.*>)?$', new.name) and len(new.args) == 2:
-                    check_coefficients(ctx, R, body, fn, floops, new)
-                ctx.check(precise, R + '.result/uses-new-ids-and-lower', 'T-CARRY', fn,
-                          'the returned Linear is not `Linear::new(terms, ceil(lower))` with every term pushed as (id of the variable of the same bit, _): variable id %s, term ids %s' % (idc, seen_ids), body.site(e))
-    loop_must(ctx, R + '.loop/push-every-bit', body, loop, lambda c: c.bb in push_bbs, 'decision_variables.push')
-    # the number of bits
-    br = bit_range(body, loop, floops)
-    how = is_bit_count(body, xexpr(body, br[1]['rv']['ops'][1])) if br is not None else None
+        if not is_peeled:
+            if loop_ide is None: loop_ide = ide
+            ctx.check(any(x[0] == 'call' and len(x) > 4 and x[4] == nextc.bb for x in T.expr_walk(ide)), R + '.vars/id-per-bit', 'T-CARRY', fn,
+                      'id is not computed from the bit index', body.site(bi), id_expr=T.expr_str(ide))
+            if ss is not None:
+                ctx.check(nextc in ss.call_objs, R + '.vars/subscripts-bit', 'T-CARRY', fn, 'subscripts do not contain the bit index', body.site(bi))
+        else:
+            # a peeled copy: the same id expression with the loop item replaced by its own bit position X, and X is the
+            # position after the loop's last one (the loop runs over 0..h, X = h)
+            X = match_index(loop_ide, ide, nextc.bb) if loop_ide is not None else None
+            okx = X is not None and hi_c is not None and canon(body, strip_casts(X), ()) == hi_c
+            ctx.check(okx, R + '.vars/id-per-bit', 'T-CARRY', fn, 'the variable pushed outside the loop is not the loop body repeated for the bit position after the loop\'s last one',
+                      body.site(bi), id_expr=T.expr_str(ide))
+            if ss is not None and hi_op is not None:
+                ctx.check(root_of(body, hi_op)[0] in ss.locals, R + '.vars/subscripts-bit', 'T-CARRY', fn, 'subscripts of the peeled variable do not contain its bit position', body.site(bi))
+        site_ids.append(canon(body, ide, floops))
+    # the same ids go into the returned linear expression
+    for e, k, rst in body.ret_assignments():
+        if k == 'ok' and e not in single_region:
+            # Ok(Linear::new(terms, c)): c = ceil(lower), and the elements of `terms` are pushed — in a loop once per iteration, or
+            # in a peeled copy — as (the id given to the variable of the same bit, _).  "The same id" = the same canonical
+            # expression (see canon): the same local, or recomputed from the same inputs in a loop over the same range
+            d = _whole_defs(body, root_of(body, rst['rv']['ops'][0])[0])
+            new = _callmap(body).get(d[0][1]) if len(d) == 1 and d[0][0] == 'call' else None
+            precise = False; seen_ids = []
+            if new is not None and re.search(r'impl v1::Linear>::new(::<.*>)?$', new.name) and len(new.args) == 2:
+                tv = root_of(body, new.args[0], SEQ_TRANSPARENT, cross_proj=False)[0]
+                tp = pushes_into(body, tv) if tv is not None else []
+                okp = bool(tp)
+                for c in tp:
+                    ta = agg_def(body, root_of(body, c.args[1])[0], 'tuple')
+                    tid = canon(body, xexpr(body, ta[1]['rv']['ops'][0]), floops) if ta and ta[1]['rv']['ops'] else None
+                    seen_ids.append(tid)
+                    lt = inner(c.bb)
+                    if lt is not None and not T.must_pass(body, lt[2], {lt[1]}, {x.bb for x in tp if x.bb in lt[4]}): okp = False
+                precise = okp and sorted(x or '' for x in seen_ids) == sorted(site_ids) and any('ITEM<' in x for x in site_ids) \
+                    and is_rounded(xexpr(body, new.args[1]), 'ceil', 'lower')
+                check_coefficients(ctx, R, body, fn, floops, new)
+            ctx.check(precise, R + '.result/uses-new-ids-and-lower', 'T-CARRY', fn,
+                      'the returned Linear is not `Linear::new(terms, ceil(lower))` with every term pushed as (id of the variable of the same bit, _): variable ids %s, term ids %s' % (site_ids, seen_ids), body.site(e))
+    loop_must(ctx, R + '.loop/push-every-bit', body, loop, lambda c: c.bb in {x.bb for x in looped}, 'decision_variables.push')
+    # the number of bits: the loop's range, plus one when the last bit is peeled
+    hi_e = xexpr(body, hi_op) if hi_op is not None else None
+    how = None
+    if hi_e is not None and not peeled: how = is_bit_count(body, hi_e)
+    elif hi_e is not None:
+        a_ = T.arith(strip_casts(hi_e))
+        if len(peeled) == 1 and a_[0] == 'bin' and a_[1] == 'Sub' and const_is(a_[3], 1.0): how = is_bit_count(body, a_[2])
+        if how: how += ' - 1, last bit peeled'
     ctx.check(how is not None, R + '.bits/count', 'T-BRANCHFX', fn, 'the bit loop does not run over 0..ceil(log2(w + 1)) with w = floor(upper) - ceil(lower)%s' %
-              ('' if br is None else ': n = ' + T.expr_str(xexpr(body, br[1]['rv']['ops'][1]))), body.site(), idiom=how)
+              ('' if hi_e is None else ': n = ' + T.expr_str(hi_e)), body.site(), idiom=how)
     # the loop starts at bit 0
     rng = [st for bi, st in body.stmts() if st['rv']['k'] == 'agg' and st['rv']['adt'].endswith('ops::Range') and st['dst']['l'] in si.locals]
     ctx.check(len(rng) >= 1 and all(r['rv']['ops'][0].get('v') == '0_usize' for r in rng), R + '.loop/from-bit-0', 'T-CONST', fn, 'bit loop does not start at 0', body.site())
